@@ -106,7 +106,7 @@ class ScopedSymExprs(Contract):
         return out
 
     def post(self, c0, c1, a, res):
-        return {"inv_region": forest.inv_region(c1)}
+        return {**forest.inv_region_parts(c1)}
 
     def _parts(self, c0, a, v):
         bi = ref(fst(v))
